@@ -412,6 +412,22 @@ func (x *Exec) lvalueLocs(env *SpecEnv, e ast.Expr) []lvLoc {
 			}
 			return out
 		}
+		if id, ok := e.Fun.(*ast.Ident); ok && id.Name == "allmaps" && len(e.Args) == 1 {
+			// allmaps(map[K]V): the entries of every map of that type
+			t := x.resolveType(env.pkgPath, e.Args[0])
+			mt, isMap := t.(*types.Map)
+			if t == nil || !isMap {
+				specErr("allmaps(T): cannot resolve map type %s", types.ExprString(e))
+			}
+			dom, ln, vals, _ := x.mapLocs(t, mt)
+			dom.idx, ln.idx = nil, nil
+			out = append(out, lvLoc{loc: dom, leafSort: dom.sort, whole: true}, lvLoc{loc: ln, leafSort: ln.sort, whole: true})
+			for _, l := range vals {
+				l.idx = nil
+				out = append(out, lvLoc{loc: l, leafSort: l.sort, whole: true})
+			}
+			return out
+		}
 		if id, ok := e.Fun.(*ast.Ident); ok && id.Name == "fields" {
 			p := x.ptrOf(x.evalExpr(env, e.Args[0]))
 			for _, lf := range leavesOf(pointeeType(p)) {
